@@ -28,9 +28,29 @@ def fresh(name, sort=I):
     return z3.Const(f"{name}!{next(_ctr)}", sort)
 
 
+EUCLID = []  # (x, d, q, r): every Euclid witness pair created in this run (engine side and spec side)
+
+
 def reset_names():
     global _ctr
     _ctr = itertools.count()
+    del EUCLID[:]
+    _EDIV.clear()
+
+
+_EDIV = {}
+
+
+def ediv(x, d):
+    """spec-side Euclid witnesses: (q, r, fact) with x == q*d + r, 0 <= r < d; valid for d > 0 (caller's context)"""
+    x = z3.simplify(x) if not z3.is_int_value(x) else x
+    key = (x.get_id(), d.get_id())
+    if key not in _EDIV:
+        q, r = fresh("sq"), fresh("sr")
+        _EDIV[key] = (q, r, x, d)
+        EUCLID.append((x, d, q, r))
+    q, r, x0, d0 = _EDIV[key]
+    return q, r, z3.And(x0 == q * d0 + r, 0 <= r, r < d0)
 
 
 class Unsupported(Exception):
@@ -265,6 +285,7 @@ class Engine:
         key = (x.get_id(), d.get_id())
         if key not in self.euclid_cache:
             self.euclid_cache[key] = (fresh("q"), fresh("r"), x, d)
+            EUCLID.append((x, d, self.euclid_cache[key][0], self.euclid_cache[key][1]))
         q, r, x0, d0 = self.euclid_cache[key]
         fact = z3.And(x0 == q * d0 + r, 0 <= r, r < d0)
         if not any(h.eq(fact) for h in st.hyps):
@@ -329,6 +350,8 @@ class Engine:
             return v.n > 0
         if isinstance(v, ObjV):
             return self.model.obj_truthy(v.path)
+        if isinstance(v, FileV):
+            return self.model.obj_truthy(v.name)
         if isinstance(v, ListV):
             return v.joined.n > 0
         if isinstance(v, StrV):
